@@ -1,6 +1,7 @@
 (* C06 -- hierarchical composition is functional substitution.  Statements only; proofs in Proofs/ComposeProofs.v,
    Proofs/FillProofs.v, Proofs/FastEvalProofs.v. *)
 From stdpp Require Import strings gmap pmap sets.
+From CG Require Model.Lint Proofs.ComposeLint.
 From CG Require Import Base.Cases Base.Compose Base.Oracle Model.Compose6 Model.FastEval Proofs.ComposeProofs Proofs.NoStripProofs Proofs.FillProofs Proofs.BlackboxProofs Proofs.FastEvalProofs Proofs.SweepProofs.
 Open Scope string_scope.
 
@@ -145,6 +146,31 @@ Proof. exact add_subcircuit_nostrip_sem. Qed.
 Print Assumptions C06_add_subcircuit_nostrip.
 
 
+(* C20's second clause for these producers (lint = Model/Lint.v): composition of lint-clean circuits is lint-clean under the default
+   flags.  Forced hypotheses, each observed on the real code: the instance name has no dot (otherwise every spliced node `a.b_x` has
+   blackbox syntax with no instance) and every child input is attached (an unattached one is an undriven buffer). *)
+Theorem C06_compose_lint_clean : ∀ P SC name conns P',
+  add_subcircuit P SC name conns = (P', Done) →
+  Lint.lint_clean P → Lint.lint_clean SC → closed (c_g P) → closed (c_g SC) →
+  Lint.has_dot name = false →
+  (∀ i, i ∈ inputs (c_g SC) → ∃ nets, (i, nets) ∈ conns ∧ nets ≠ []) →
+  Lint.lint_clean P'.
+Proof. exact ComposeLint.add_subcircuit_lint_clean. Qed.
+Print Assumptions C06_compose_lint_clean.
+
+(* fill_blackbox: instance and pin names dot-free, and every parent node with the syntax inst.x is a pin of the instance (the instance
+   leaves the registry, so a stray node inst.extra would keep blackbox syntax without an instance) *)
+Theorem C06_fill_lint_clean : ∀ P inst SC P' d,
+  c_bbs P !! inst = Some d → fill_blackbox P inst SC = (P', Done) →
+  Lint.lint_clean P → Lint.lint_clean SC → closed (c_g P) → closed (c_g SC) →
+  Lint.has_dot inst = false → bb_in d ## bb_out d →
+  (∀ p, p ∈ bb_in d ∪ bb_out d → Lint.has_dot p = false) →
+  (∀ n, n ∈ dom (c_g P) → Lint.has_dot n = true → Lint.before_dot n = inst →
+        ∃ p, p ∈ bb_in d ∪ bb_out d ∧ n = Lint.pin inst p) →
+  Lint.lint_clean P'.
+Proof. exact ComposeLint.fill_blackbox_lint_clean. Qed.
+Print Assumptions C06_fill_lint_clean.
+
 (* building blocks named in the design: driving a free buffer adds exactly the constraint v x = v u *)
 Theorem C06_drive_node : ∀ c u x i v, c !! x = Some i → (n_ty i = Buf ∨ n_ty i = BbIn) → n_fi i ⊆ {[u]} →
   consistent (add_edge c u x) v ↔ consistent c v ∧ v x = v u.
@@ -225,3 +251,10 @@ Example C06_example_nostrip :
   (add_subcircuit_gen false exP exSC "u0" [("o", ["h"])]).2 = Done ∧
   elements (inputs (c_g (add_subcircuit_gen false exP exSC "u0" [("o", ["h"])]).1)) ≡ₚ ["x"; "u0_a"].
 Proof. split; [vm_compute; reflexivity|]. apply (bool_decide_unpack _). vm_compute. exact I. Qed.
+
+(* lint clause: a lint-clean parent (an inverter) and the inverter child, its input attached to x *)
+Definition exPL := mk "top" [("x", Input, false, []); ("g", Not, true, ["x"])] [].
+Example C06_example_lint_hyps :
+  Lint.lint_clean exPL ∧ Lint.lint_clean exSC ∧ closed (c_g exPL) ∧ closed (c_g exSC) ∧
+  (add_subcircuit exPL exSC "u0" [("a", ["x"])]).2 = Done ∧ Lint.lint_clean (add_subcircuit exPL exSC "u0" [("a", ["x"])]).1.
+Proof. repeat split; try (apply closedb_spec); vm_compute; reflexivity. Qed.
